@@ -63,19 +63,21 @@ var outName = []string{"ok", "error", "client-cancel", "panic"}
 
 // world is the harness-side state of one execution.
 type world struct {
-	cfg      config
-	hosts    proxy.HostPool
-	inflight []int   // forwards inside RoundTrip per host
-	maxSeen  []int   // maximum simultaneous forwards per host
-	selMinC  [][]int64 // per request thread, per host: min Conns seen since its selection interval began
-	selMinF  [][]int32 // likewise min Fails
+	cfg       config
+	hosts     proxy.HostPool
+	inflight  []int     // forwards inside RoundTrip per host
+	maxSeen   []int     // maximum simultaneous forwards per host
+	selMinC   [][]int64 // per request thread, per host: min Conns seen since its selection interval began
+	selMinF   [][]int32 // likewise min Fails
 	selecting []bool
 	// failure model built from observed counter movements
 	lastFails []int32
 	lastConns []int64
 	vid2tid   map[int]int
-	slots     [][]int // per request thread, per host: in-flight slots it holds (increments minus decrements it made)
+	slots     [][]int           // per request thread, per host: in-flight slots it holds (increments minus decrements it made)
 	oblig     [][]time.Duration // per host: clock at which each outstanding failure was counted
+	errs      []int             // per host: attempts that ended with a backend error
+	failIncs  []int             // per host: increments of the fail counter seen
 	events    []string
 	outcomes  []string
 	viol      string
@@ -92,6 +94,7 @@ type config struct {
 	Policy      string `json:"policy"`
 	N           int    `json:"threads"`
 	Outs        []int  `json:"allowed_outcomes"`
+	HC          bool   `json:"health_check_round,omitempty"` // a thread runs one active health-check round (probe succeeds) at any time
 }
 
 func (c config) block() string {
@@ -145,6 +148,7 @@ func (t *fakeRT) RoundTrip(r *http.Request) (*http.Response, error) {
 	w.outcomes = append(w.outcomes, outName[out])
 	switch out {
 	case outErr:
+		w.errs[t.id]++
 		return nil, errors.New("backend error")
 	case outCancel:
 		return nil, context.Canceled
@@ -155,6 +159,13 @@ func (t *fakeRT) RoundTrip(r *http.Request) (*http.Response, error) {
 }
 
 type tidKey struct{}
+
+// probeOK answers every active health probe with 200.
+type probeOK struct{}
+
+func (probeOK) RoundTrip(r *http.Request) (*http.Response, error) {
+	return &http.Response{StatusCode: 200, Header: http.Header{}, Body: io.NopCloser(strings.NewReader("up")), Request: r}, nil
+}
 
 func (w *world) fail(kind, msg string) {
 	if w.viol == "" {
@@ -209,6 +220,10 @@ func (w *world) observe() {
 		for f > w.lastFails[h] {
 			w.oblig[h] = append(w.oblig[h], now)
 			w.lastFails[h]++
+			w.failIncs[h]++
+			if w.failIncs[h] > w.errs[h] {
+				w.fail("failure-counted-without-backend-failure", fmt.Sprintf("backend %d: fail counter incremented %d times after %d failed attempts (a client cancellation or a success is not a backend failure)", h, w.failIncs[h], w.errs[h]))
+			}
 		}
 		for f < w.lastFails[h] {
 			// a decrement must release a failure that was counted at least fail_timeout ago
@@ -253,12 +268,12 @@ func (w *world) invariant() string {
 }
 
 type c14case struct {
-	Block    string   `json:"upstream_block"`
-	Threads  int      `json:"threads"`
-	Bound    int      `json:"preemption_bound"`
-	Choices  []int    `json:"choices"`
-	Events   []string `json:"events"`
-	Failure  string   `json:"failure"`
+	Block   string   `json:"upstream_block"`
+	Threads int      `json:"threads"`
+	Bound   int      `json:"preemption_bound"`
+	Choices []int    `json:"choices"`
+	Events  []string `json:"events"`
+	Failure string   `json:"failure"`
 }
 
 func explore(rep *kit.Report, cfg config, bound int) {
@@ -272,6 +287,7 @@ func explore(rep *kit.Report, cfg config, bound int) {
 		n := len(w.hosts)
 		w.inflight, w.maxSeen, w.lastFails = make([]int, n), make([]int, n), make([]int32, n)
 		w.lastConns = make([]int64, n)
+		w.errs, w.failIncs = make([]int, n), make([]int, n)
 		w.vid2tid = map[int]int{}
 		w.slots = make([][]int, cfg.N)
 		for t := range w.slots {
@@ -288,6 +304,12 @@ func explore(rep *kit.Report, cfg config, bound int) {
 			w.selMinC[t], w.selMinF[t] = make([]int64, n), make([]int32, n)
 		}
 		w.ready = true
+		if cfg.HC {
+			verifrt.GoNamed("health-check", func() {
+				proxy.VerifHealthCheck(ups[0], "/health", probeOK{})
+				w.events = append(w.events, "health-check-round-done")
+			})
+		}
 		for t := 0; t < cfg.N; t++ {
 			t := t
 			verifrt.GoNamed(fmt.Sprintf("req%d", t), func() {
@@ -359,6 +381,10 @@ func explore(rep *kit.Report, cfg config, bound int) {
 			if w.inflight[h] != 0 {
 				return "harness: inflight not zero"
 			}
+			if cfg.FailTimeout != "0s" && w.failIncs[h] != w.errs[h] {
+				w.violKind = "backend-failure-not-counted"
+				return fmt.Sprintf("backend %d: %d attempts failed but the fail counter was incremented %d times", h, w.errs[h], w.failIncs[h])
+			}
 			for t := range w.slots {
 				if w.slots[t][h] != 0 {
 					w.violKind = "slot-leak"
@@ -392,7 +418,7 @@ func explore(rep *kit.Report, cfg config, bound int) {
 		}
 		rep.Violation("C14/"+kind, st.FirstFail.Failure, c14case{cfg.block(), cfg.N, bound, st.FirstPrefix, w.events, st.FirstFail.Failure})
 	}
-	rep.Class(fmt.Sprintf("N=%d/backends=%d/max_conns=%d/retry=%v/failcount=%v", cfg.N, cfg.Backends, cfg.MaxConns, cfg.TryDuration != "0s", cfg.FailTimeout != "0s"))
+	rep.Class(fmt.Sprintf("N=%d/backends=%d/max_conns=%d/retry=%v/failcount=%v/health-check=%v", cfg.N, cfg.Backends, cfg.MaxConns, cfg.TryDuration != "0s", cfg.FailTimeout != "0s", cfg.HC))
 	if cfg.Backends == 2 && cfg.MaxConns == 1 && cfg.Policy == "first" {
 		rep.Sample(map[string]interface{}{"upstream_block": cfg.block(), "threads": cfg.N, "preemption_bound": bound, "schedules": st.Executions, "example_events": w.events})
 	}
@@ -465,7 +491,7 @@ func tail(s string, n int) string {
 
 func main() {
 	rep := kit.NewReport("C14", "model_checking",
-		"N concurrent requests through the instrumented proxy.ServeHTTP on one upstream block: backends {1,2} x max_conns {0,1,2} x max_fails {1,2} x fail_timeout {0,10s} x try_duration {0,50ms (two attempts)} x policy {first, round_robin, least_conn}; every per-attempt outcome in {ok,error,client-cancel,panic}; all schedules up to the preemption bound; invariants at every scheduling point; distinct_nontrivial = configuration classes")
+		"N concurrent requests through the instrumented proxy.ServeHTTP on one upstream block: backends {1,2} x max_conns {0,1,2} x max_fails {1,2} x fail_timeout {0,10s} x try_duration {0,50ms (two attempts)} x policy {first, round_robin, least_conn}; every per-attempt outcome in {ok,error,client-cancel,panic}; for counted failures also with one active health-check round as a further thread; all schedules up to the preemption bound; invariants at every scheduling point; distinct_nontrivial = configuration classes")
 	kit.Init()
 	if !rep.IsWorker() {
 		rep.Assume("third-party/net/http code and the fake transports are atomic between scheduling points; plain (unsynchronised) accesses are covered by the separate free-running -race pass")
@@ -533,7 +559,11 @@ func main() {
 									rep.Capped("deadline reached")
 									rep.Finish()
 								}
-								explore(rep, config{be, mc, mf, ft, td, pol, N, outs}, bound)
+								explore(rep, config{be, mc, mf, ft, td, pol, N, outs, false}, bound)
+								if N == 2 && mc == 0 && ft != "0s" && td == "0s" && pol == "first" {
+									// the same traffic with an active health-check round (successful probes) running at any time
+									explore(rep, config{be, mc, mf, ft, td, pol, N, []int{outOK, outErr}, true}, bound)
+								}
 							}
 						}
 					}
